@@ -181,7 +181,8 @@ class PreprocessorData:
             address = self.curr_address
 
         if label in self.labels:
-            other_position = self.labels_code_positions[label]
+            # labels that the assembler itself declares (the wflip-area start labels) have no code position.
+            other_position = self.labels_code_positions.get(label, 'an internal label of the assembler')
             macro_resolve_error(
                 self.curr_tree, f'label declared twice - "{label}" on ' f'{code_position} and {other_position}'
             )
